@@ -268,7 +268,8 @@ func gen(r *vh.Rand, tier string, n int) []in {
 		}
 	}
 	// 3. Resolve / ResolvePinned on all pairs
-	curs, news, tracks := enum(vocab5, 3), enum(vocab5, 2), enum(vocabP, 2)
+	// quick: every one-word track plus a few two-component ones (all two-component tracks are invalid pinned tracks)
+	curs, news, tracks := enum(vocab5, 3), enum(vocab5, 2), append(enum(vocabP, 1), "foo/edge", "latest/", "/foo", "edge/foo")
 	pnews := enum(vocabP, 3)
 	if thorough {
 		curs, news = enum(vocab9, 3), enum(vocab9, 2)
